@@ -5,6 +5,8 @@ engine's tables to the specification's variables, graph replay and counter-examp
 """
 from __future__ import annotations
 
+import dataclasses
+
 import hashlib
 import json
 import random
@@ -39,6 +41,7 @@ class Program:
     days: tuple = (0,)
     features: tuple = ()
     mc_only: bool = False   # too large to dump/replay: model-checked only
+    gfail: dict = dataclasses.field(default_factory=dict)   # g -> cancel_after_n_failures (absent = NULL); g may be 0 (the batch)
 
     def updates(self):
         return list(range(1, self.n_updates + 1))
@@ -91,6 +94,7 @@ def mc_module(p: Program, name: str) -> str:
              "mcJCores == " + fn({j: d["cores"] for j, d in J.items()}),
              "mcGParent == " + fn({g: d["parent"] for g, d in p.groups.items()}),
              "mcGUpd == " + fn({g: d["upd"] for g, d in p.groups.items()}),
+             "mcGFail == " + fn({g: p.gfail.get(g, 0) for g in [0] + sorted(p.groups)}),
              "===="]
     return "\n".join(lines) + "\n"
 
@@ -103,7 +107,7 @@ def mc_cfg(p: Program, avoid=(), invariants=(), properties=(), extra="", spec=No
     consts = {
         "Jobs": setlit(sorted(p.jobs)), "Groups": setlit([0] + sorted(p.groups)), "Updates": setlit(p.updates()),
         "JUpd": "<- mcJUpd", "JGrp": "<- mcJGrp", "JPar": "<- mcJPar", "JAlways": "<- mcJAlways", "JCores": "<- mcJCores",
-        "GParent": "<- mcGParent", "GUpd": "<- mcGUpd", "AttIds": setlit(p.att_ids), "Insts": setlit(p.insts),
+        "GParent": "<- mcGParent", "GUpd": "<- mcGUpd", "GFail": "<- mcGFail", "AttIds": setlit(p.att_ids), "Insts": setlit(p.insts),
         "InstCores": p.inst_cores, "Times": setlit(p.times), "ResQ": p.res_q, "Days": setlit(p.days),
         "Features": setlit(p.features), "Avoid": setlit(avoid),
     }
@@ -158,6 +162,19 @@ def programs():
                              features=("billing",))
     P["billing_m"] = Program("billing_m", {1: job(grp=1)}, {1: dict(parent=0, upd=1)}, 1, att_ids=("a1", "a2"), times=(0, 1),
                              days=(0, 1), features=("billing", "deactivate"), mc_only=True)
+    # three updates: update 3 is open (its job inserted) while update 2 commits; the recount of commit_batch_update (update >= 2 only)
+    P["upd3"] = Program("upd3", {1: job(), 2: job(upd=2, par=[1], cores=250), 3: job(upd=3, par=[1])}, {}, 3)
+    # the parent of an update-2 job is Creating (job-private instance) / Running / finished when update 2 commits
+    P["jpim_u2"] = Program("jpim_u2", {1: job(), 2: job(upd=2, par=[1], cores=250)}, {}, 2, features=("jpim",))
+    # a later-update child of two earlier parents: one already failed, one still running when the update commits
+    P["vee2"] = Program("vee2", {1: job(), 2: job(cores=250), 3: job(upd=2, par=[1, 2])}, {}, 2)
+    # fail-fast cancellation (cancel_after_n_failures): a group that cancels itself after one failure next to a sibling job;
+    # the batch-level limit over a nested group
+    P["ff"] = Program("ff", {1: job(grp=1), 2: job(grp=1, cores=250), 3: job()}, {1: dict(parent=0, upd=1)}, 1,
+                      features=("failfast",), gfail={1: 1}, mc_only=True)
+    P["ff_s"] = Program("ff_s", {1: job(grp=1), 2: job(cores=250)}, {1: dict(parent=0, upd=1)}, 1, features=("failfast",), gfail={1: 1})
+    P["ffroot"] = Program("ffroot", {1: job(), 2: job(grp=1, par=[1], always=True, cores=250)}, {1: dict(parent=0, upd=1)}, 1,
+                          features=("failfast",), gfail={0: 1, 1: 2})
     for p in P.values():
         p.check()
     return P
@@ -190,8 +207,8 @@ def run_tlc(ctx, p: Program, *, avoid=ALL_AVOID, invariants=(), properties=(), d
         res.cached = True
         return res, cache
     wd = tlc.prepare_dir(cache, ["batchdb"], {f"{name}.tla": mod, f"{name}.cfg": cfg})
-    res = tlc.run(wd, name, f"{name}.cfg", workers=workers or min(ctx.workers, 6), coverage=False, dump="graph" if dump else None,
-                  simulate=simulate, depth=depth, timeout=timeout)
+    res = tlc.run(wd, name, f"{name}.cfg", workers=workers or min(ctx.workers, 6 if ctx.quick else 12), coverage=False, dump="graph" if dump else None,
+                  simulate=simulate, depth=depth, timeout=timeout if ctx.quick else max(timeout, 20000))
     res.cached = False
     if simulate is None:
         (cache / "done.json").write_text(json.dumps({"wall_s": res.wall_s}))
@@ -202,12 +219,23 @@ def run_tlc(ctx, p: Program, *, avoid=ALL_AVOID, invariants=(), properties=(), d
 class Impl:
     """The real code (BatchWorld) positioned at BatchDB's initial state for a program."""
 
+    @classmethod
+    def attach(cls, other, seed=0):
+        """a second service process working on the database of `other` (used for overlapping transactions)"""
+        from vlib.batchenv import BatchWorld
+
+        self = cls.__new__(cls)
+        self.p, self.b, self.day0 = other.p, other.b, other.day0
+        self.w = BatchWorld(seed=seed, eng=other.w.eng)
+        self.results, self.sqlerrors = [], []
+        return self
+
     def __init__(self, p: Program, seed=0, repo=None):
         from vlib.batchenv import BatchWorld
 
         self.p = p
         self.w = BatchWorld(seed=seed, repo=repo)
-        r = self.w.create_batch("tok-batch")
+        r = self.w.create_batch("tok-batch", **({"cancel_after_n_failures": p.gfail[0]} if p.gfail.get(0) else {}))
         assert r.kind == "ok", r
         self.b = r.value
         for i in p.insts:
@@ -231,7 +259,10 @@ class Impl:
 
     def group_spec(self, g):
         d = self.p.groups[g]
-        return {"job_group_id": g - self.p.start_group(d["upd"]) + 1, "absolute_parent_id": d["parent"]}
+        spec = {"job_group_id": g - self.p.start_group(d["upd"]) + 1, "absolute_parent_id": d["parent"]}
+        if self.p.gfail.get(g):
+            spec["cancel_after_n_failures"] = self.p.gfail[g]
+        return spec
 
     def inst_of(self, j, a):
         rows = self.w.rows("attempts", batch_id=self.b, job_id=j, attempt_id=a)
@@ -274,8 +305,10 @@ class Impl:
         elif name == "Complete":
             j, a, i, st, t0, t1 = args
             r = w.mark_job_complete(b, j, a, i, st, t0, t1, "completed")
-        elif name in ("CancelReadySelect", "CancelCreatingSelect", "CancelRunningSelect", "OrphanSelect"):
+        elif name in ("CancelReadySelect", "CancelCreatingSelect", "CancelRunningSelect", "OrphanSelect", "FailFastSelect"):
             r = None  # the loop body's query: the call it queues is a separate step
+        elif name == "FailFastCall":
+            r = w.driver_cancel_job_group(b, args[0])     # driver/main.py _cancel_job_group
         elif name == "CancelReadyCall":
             (j,) = args
             r = w.mark_job_complete(b, j, None, None, "Cancelled", None, None, "cancelled")
@@ -459,7 +492,10 @@ def selection_expected(p: Program, st):
     def grpcanc(g):
         return any(a in st["canc"] for a in p.anc(g))
     ur = st["ur"]
-    exp = {"cancel_ready": set(), "cancel_creating": set(), "cancel_running": set(), "orphan": set(), "schedule": set()}
+    exp = {"cancel_ready": set(), "cancel_creating": set(), "cancel_running": set(), "orphan": set(), "schedule": set(), "failfast": set()}
+    for g in [0] + sorted(p.groups):
+        if st["gex"][g] and st["gst"][g] == "running" and not grpcanc(g) and p.gfail.get(g) and st["tally"][g]["f"] >= p.gfail[g]:
+            exp["failfast"].add((g,))
     for j, d in p.jobs.items():
         s, g, al, jc = st["js"][j], d["grp"], d["always"], st["jc"][j]
         if s == "none":
@@ -484,7 +520,7 @@ def selection_expected(p: Program, st):
 
 
 EDGE_LOOP = {"CancelReadySelect": "cancel_ready", "CancelCreatingSelect": "cancel_creating", "CancelRunningSelect": "cancel_running",
-             "OrphanSelect": "orphan", "SchedSelect": "schedule"}
+             "OrphanSelect": "orphan", "SchedSelect": "schedule", "FailFastSelect": "failfast"}
 
 
 def check_selection_at(p, impl, got, out_edges, path):
@@ -504,11 +540,54 @@ def check_selection_at(p, impl, got, out_edges, path):
         name, args = tlc.parse_action_label(lab)
         if name in EDGE_LOOP:
             args = [str(a) if isinstance(a, tlaval.Sym) else a for a in args]
-            by_loop[EDGE_LOOP[name]].add((args[0],) if name in ("CancelReadySelect", "SchedSelect") else (args[0], args[1]))
+            by_loop[EDGE_LOOP[name]].add((args[0],) if name in ("CancelReadySelect", "SchedSelect", "FailFastSelect") else (args[0], args[1]))
     for loop, s in by_loop.items():
         if not s <= exp[loop]:       # (a select is not enabled for a row whose call is still pending, or without a free attempt id)
             raise RuntimeError(f"harness predicate for {loop} disagrees with the specification: graph {sorted(s)} vs predicate {sorted(exp[loop])}")
     return problems
+
+
+def prioritised(graph, walks, covered):
+    """Order in which the edge-cover walks are executed when the time budget may not reach all of them: lazily greedy on the number
+    of not yet exercised edge CLASSES per step, a class being (action, first argument, job states, update states of the source
+    state) -- e.g. `Commit(2) while job 1 is Creating` is exercised early although thousands of Heartbeat/Complete edges exist.
+    When every class reachable by the remaining walks is exercised, the rest follow in the given (random) order."""
+    import heapq
+
+    lab_cache = {}
+    node_cache = {}
+
+    def cls(e):
+        s, l, _d = e
+        k = lab_cache.get(l)
+        if k is None:
+            name, args = tlc.parse_action_label(l)
+            k = lab_cache[l] = (name, repr(args[0]) if args else "")
+        n = node_cache.get(s)
+        if n is None:
+            nd = graph.nodes[s]
+            n = node_cache[s] = (repr(nd.get("js")), repr(nd.get("us")), repr(nd.get("canc")))
+        return k + n
+
+    wcls = [frozenset(cls(e) for e in wk) for wk in walks]
+    seen = set()
+    heap = [(-len(c) / max(1, len(walks[i])), i) for i, c in enumerate(wcls)]
+    heapq.heapify(heap)
+    done = [False] * len(walks)
+    while heap:
+        _neg, i = heapq.heappop(heap)
+        gain = len(wcls[i] - seen) / max(1, len(walks[i]))
+        if gain <= 0:
+            break
+        if heap and gain < -heap[0][0]:
+            heapq.heappush(heap, (-gain, i))
+            continue
+        done[i] = True
+        seen |= wcls[i]
+        yield walks[i]
+    for i, wk in enumerate(walks):
+        if not done[i]:
+            yield wk
 
 
 def replay_graph(ctx, p: Program, graph: tlc.Graph, *, seed=0, max_steps=None, footprint=None, deadline=None, check_selection=False):
@@ -526,7 +605,7 @@ def replay_graph(ctx, p: Program, graph: tlc.Graph, *, seed=0, max_steps=None, f
     out_edges = graph.out_edges() if check_selection else {}
     sel_checked = set()
     sel_problems = []
-    for wk in walks:
+    for wk in prioritised(graph, walks, covered):
         if max_steps is not None and steps >= max_steps:
             break
         if deadline is not None and time.time() > deadline:
@@ -589,6 +668,8 @@ FOOTPRINT = {
     "C05": {"js", "jc", "npp"},
     "C06": {"bst", "bnj", "gst", "gnj", "tally", "js", "us", "gex"},
     "C07": {"js", "jc", "canc", "gex", "ur", "cr"},
+    "C08": {"js", "npp", "jc", "us", "bst", "gst"},
+    "C09": {"us", "bnj", "gnj", "bst", "gst", "js", "ur", "stg"},
     "C10": {"inst", "att"},
     "C41": {"us", "js", "jatt", "ur", "tally", "bst", "gst", "bnj", "gnj", "stg", "jc", "npp"},
     "C39": {"js", "jatt", "att", "bst", "gst", "canc", "ur", "jc", "npp", "inst", "tally"},
@@ -606,7 +687,8 @@ FINDING_TEXT = {
 
 
 def run_property(ctx, pid, invariants, properties, quick_programs, thorough_programs, findings=(), budget_quick=45, budget_thorough=600,
-                 check_selection=False):
+                 check_selection=False, b2=True, merge=False, overlap=None):
+    """merge=True: this is an additional stage of a check that has its own coverage summary (numbers are added, the rule is kept)."""
     P = programs()
     names = quick_programs if ctx.quick else thorough_programs
     budget = budget_quick if ctx.quick else budget_thorough
@@ -636,7 +718,8 @@ def run_property(ctx, pid, invariants, properties, quick_programs, thorough_prog
             continue
         # (2) B1: the code has the specification's transition relation on this graph
         g = tlc.parse_dot(wd / "graph.dot")
-        stats, mism, sqlerrs = replay_graph(ctx, p, g, seed=ctx.seed, deadline=time.time() + per_prog, check_selection=check_selection)
+        stats, mism, sqlerrs = replay_graph(ctx, p, g, seed=ctx.seed, deadline=time.time() + per_prog,
+                                            check_selection=(n in check_selection) if isinstance(check_selection, (set, frozenset, list, tuple)) else check_selection)
         for sp in stats.pop("selection_problems", []):
             ctx.violation(f"selection:{sp.get('loop')}:{sp['kind']}", {"program": n, **sp})
         total_steps += stats["steps"]
@@ -680,7 +763,7 @@ def run_property(ctx, pid, invariants, properties, quick_programs, thorough_prog
                      f"{sorted(mism['diff'])}); if it was repaired, move the entry of known_findings.json to kind=fixed")
     # (4) B2: random histories of the real code on larger programs, validated by TLC (all of this property's formulas at every step)
     BP = big_programs()
-    b2 = [("big5", 25, 60)] if ctx.quick else [("big5", 400, 80), ("wide6", 400, 80)]
+    b2 = ([("big5", 25, 60)] if ctx.quick else [("big5", 400, 80), ("wide6", 400, 80)]) if b2 else []
     n_b2 = 0
     for bn, ntr, ln in b2:
         bp = BP[bn]
@@ -708,6 +791,17 @@ def run_property(ctx, pid, invariants, properties, quick_programs, thorough_prog
                     ctx.violation(f"sqlerror:{e[0]}:{e[2]}", {"program": bn, "error": e})
         if lines:
             ctx.sample({"program": bn, "history": [(e["a"], e["args"]) for e in json.loads(lines[0])["ev"][:15]]})
+    # (5) overlapping transactions: B inside A at every statement boundary of A must give the tables of A;B or B;A
+    if overlap:
+        st = interleave_stage(ctx, pid, overlap, budget_s=(20 if ctx.quick else 300), all_pairs=not ctx.quick)
+        total_steps += st["scenarios"]
+        if st["ran_inside"] == 0 and not ctx.viol:
+            raise RuntimeError(f"overlapping-transactions stage: no intruder ever ran inside a transaction ({st})")
+    if merge:
+        ctx.cov["traces_validated_against_impl"] += sum(s["walks"] for s in ctx.cov.get("graph_replay", [])) + n_b2
+        ctx.cov["evaluations"] += total_steps
+        ctx.cov["distinct_nontrivial"] += total_edges
+        return
     ctx.cov["traces_validated_against_impl"] = sum(s["walks"] for s in ctx.cov.get("graph_replay", [])) + n_b2
     ctx.cov["evaluations"] = total_steps
     ctx.cov["distinct_nontrivial"] = total_edges
@@ -716,10 +810,230 @@ def run_property(ctx, pid, invariants, properties, quick_programs, thorough_prog
                        "every walk through the labelled state graph is executed on the real SQL (MiniMySQL) + real Python front end and the "
                        "full projected state compared after each step; distinct_nontrivial = distinct graph edges executed on the code")
     ctx.assume("MiniMySQL (vlib/minimysql) renders the MySQL semantics of the statements in batch/sql and batch/batch/**.py faithfully",
-               "each stored-procedure call and each @transaction block is atomic and serialisable",
+               "each stored-procedure call and each @transaction block is atomic and serialisable (checked for pairs of overlapping "
+               "transactions by the overlapping-transactions stage under the isolation model of vlib/minimysql/isolation.py)",
                "user variables in INSERT..SELECT..ON DUPLICATE KEY UPDATE are evaluated row by row in step with the insert",
                "one batch, one user, one instance collection; shard tokens summed out; placement (select_inst_coll) is faked",
                "behaviours entering the scenarios of recorded findings (" + ", ".join(ALL_AVOID) + ") are excluded from the main run and handled per finding")
+
+
+
+# ---- overlapping transactions: the code's transactions are atomic with respect to each other ------------------------------------
+# BatchDB treats every stored-procedure call / @transaction block as one atomic action.  This stage checks that assumption on the
+# code: at a state s of the TLC graph with two enabled actions A and B, A is executed on the real SQL and, at its k-th interior
+# statement boundary, B runs to completion on another connection (vlib/minimysql/isolation.py: consistent reads, predicate row
+# locks, lock waits).  If B was not made to wait, the resulting tables must be those of A;B or of B;A in the graph.
+DUP_OK = {"Complete", "Started", "ScheduleProc", "CreatingProc", "Commit", "CancelGroup", "CancelReadyCall", "CancelCreatingCall",
+          "UnscheduleCall", "Deactivate", "Activate", "AddResources", "Heartbeat", "FailFastCall"}
+CROSS = {("Complete", "Commit"), ("Commit", "Complete"), ("Complete", "Complete"), ("Complete", "CancelGroup"), ("CancelGroup", "Complete"),
+         ("Commit", "CancelGroup"), ("CancelGroup", "Commit"), ("InsertJob", "Commit"), ("InsertJob", "CancelGroup"), ("ScheduleProc", "CancelGroup"),
+         ("CancelGroup", "ScheduleProc"), ("ScheduleProc", "Deactivate"), ("Deactivate", "ScheduleProc"), ("Complete", "Deactivate"),
+         ("Deactivate", "Complete"), ("Started", "Complete"), ("Complete", "Started"), ("CancelReadyCall", "ScheduleProc"),
+         ("ScheduleProc", "CancelReadyCall"), ("UnscheduleCall", "Complete"), ("Complete", "UnscheduleCall"), ("Started", "CancelGroup"),
+         ("CancelGroup", "CancelGroup"), ("Commit", "Commit"), ("Heartbeat", "Complete"), ("Complete", "Heartbeat"),
+         ("AddResources", "Complete"), ("Complete", "AddResources"), ("InsertJob", "InsertJob"), ("Complete", "CancelReadyCall"),
+         ("CancelReadyCall", "Complete"), ("Complete", "FailFastCall"), ("FailFastCall", "Complete")}
+COMPACTORS = ("Heartbeat", "AddResources", "Complete", "UnscheduleCall", "Deactivate")
+
+
+def _args_of(lab):
+    name, args = tlc.parse_action_label(lab)
+    return name, [str(a) if isinstance(a, tlaval.Sym) else a for a in args]
+
+
+def interleave_stage(ctx, pid, names, *, budget_s, all_pairs=False, max_k=40, pairs_per_state=6, dup_only=None):
+    """dup_only: restrict to A = B (the same request delivered twice) for the named actions."""
+    from vlib.minimysql.isolation import Interleaving
+
+    P = programs()
+    foot = FOOTPRINT[pid]
+    rng = random.Random(ctx.seed * 31 + 5)
+    stats = {"scenarios": 0, "ran_inside": 0, "made_to_wait": 0, "pairs": 0, "states": 0, "programs": {}, "by_pair": {}}
+    per = budget_s / max(1, len([n for n in names if not P[n].mc_only]))
+    reported = set()
+    kind_count = {}
+    for n in names:
+        p = P[n]
+        if p.mc_only:
+            continue
+        res, wd = run_tlc(ctx, p, avoid=ALL_AVOID, invariants=["TypeOK"], properties=[], dump=True, tag="il")
+        if getattr(res, "cached", False) is False:
+            ctx.add_tlc(res, f"BatchDB program {n}: state graph for the overlapping-transactions stage")
+        g = tlc.parse_dot(wd / "graph.dot")
+        out = g.out_edges()
+        succ = {}
+        for s_, l_, d_ in g.edges:
+            succ[(s_, l_)] = d_
+        # BFS tree: a shortest path from the initial state to every node
+        parent = {}
+        for root in g.init:
+            parent[root] = None
+            dq = [root]
+            while dq:
+                nxt = []
+                for u in dq:
+                    for (lab, v) in sorted(out.get(u, ())):
+                        if v not in parent:
+                            parent[v] = (u, lab)
+                            nxt.append(v)
+                dq = nxt
+
+        def path_to(u):
+            pth = []
+            while parent[u] is not None:
+                pu, lab = parent[u]
+                pth.append((pu, lab, u))
+                u = pu
+            pth.reverse()
+            return pth
+
+        # for every kind of pair (action names), the states where such a pair is enabled
+        by_kind = {}
+        name_of = {}
+        for node, es in out.items():
+            if node not in parent:
+                continue
+            names_here = {}
+            for lab, _d in es:
+                nm = name_of.get(lab)
+                if nm is None:
+                    nm = name_of[lab] = _args_of(lab)[0]
+                names_here.setdefault(nm, []).append(lab)
+            for na in names_here:
+                for nb in names_here:
+                    if dup_only is not None:
+                        ok = na == nb and na in dup_only
+                    elif na == nb and na in DUP_OK:
+                        ok = True
+                    else:
+                        ok = all_pairs or (na, nb) in CROSS
+                    if ok:
+                        by_kind.setdefault((na, nb), []).append(node)
+                if "billing" in p.features and na in COMPACTORS and dup_only is None:
+                    by_kind.setdefault((na, "Compact"), []).append(node)
+                    by_kind.setdefault(("Compact", na), []).append(node)
+        kinds = sorted(by_kind)
+        rng.shuffle(kinds)
+        deadline = time.time() + per
+        done_pairs = set()
+        nsc = 0
+        rounds = 0
+        while kinds and time.time() < deadline:
+            kd = kinds[rounds % len(kinds)]
+            rounds += 1
+            if rounds > 200000:
+                break
+            node = rng.choice(by_kind[kd])
+            wk = path_to(node)
+            pos = len(wk)
+            edges = sorted(out.get(node, ()))
+            cands = []
+            for la, da in edges:
+                if kd[0] == "Compact":
+                    break
+                if name_of[la] != kd[0]:
+                    continue
+                if kd[1] == "Compact":
+                    cands.append((la, da, "Compact", node))
+                    continue
+                for lb, db in edges:
+                    if name_of[lb] != kd[1] or (kd[0] == kd[1] and dup_only is not None and la != lb):
+                        continue
+                    if kd[0] == kd[1] and la != lb and (kd not in CROSS and not all_pairs):
+                        continue
+                    cands.append((la, da, lb, db))
+            if kd[0] == "Compact":
+                cands = [("Compact", node, lb, db) for lb, db in edges if name_of[lb] == kd[1]]
+            cands = [c for c in cands if (node, c[0], c[2]) not in done_pairs]
+            if not cands:
+                continue
+            rng.shuffle(cands)
+            chosen = cands[:pairs_per_state]
+            impl = Impl(p, seed=ctx.seed + nsc)
+            others = []
+            try:
+                for (_s, lab, _d) in wk[:pos]:
+                    nm, ar = _args_of(lab)
+                    impl.apply(nm, ar)
+                base = impl.w.eng.save_state()
+                stats["states"] += 1
+                for la, da, lb, db in chosen:
+                    if time.time() > deadline:
+                        break
+                    done_pairs.add((node, la, lb))
+                    na, aa = ("Compact", []) if la == "Compact" else _args_of(la)
+                    nb, ab = ("Compact", []) if lb == "Compact" else _args_of(lb)
+                    # the serial outcomes according to the specification
+                    s12 = db if la == "Compact" else (da if lb == "Compact" else succ.get((da, lb)))
+                    s21 = da if lb == "Compact" else (db if la == "Compact" else succ.get((db, la)))
+                    if la == lb:
+                        # the same request delivered twice: where the specification does not enable the second delivery it is
+                        # refused / recognised as a duplicate, i.e. it changes nothing
+                        s12 = s21 = s12 if s12 is not None else da
+                    elif s12 is None or s21 is None:
+                        continue                    # one of the serial orders leaves the explored graph: its outcome is not known
+                    allowed = [g.nodes[x] for x in (s12, s21)]
+                    stats["pairs"] += 1
+                    for k in range(1, max_k + 1):
+                        if time.time() > deadline:
+                            break
+                        impl.w.eng.load_state(base)
+                        nsc += 1
+                        cc = Interleaving(impl.w.eng)
+                        impl.w.eng.cc = cc
+
+                        def intruder(nb=nb, ab=ab):
+                            other = Impl.attach(impl, seed=ctx.seed + 1)
+                            others.append(other)
+                            if nb == "Compact":
+                                return other.w.compact_billing()
+                            return other.apply(nb, ab)
+
+                        cc.arm(k, intruder)
+                        try:
+                            if na == "Compact":
+                                impl.w.compact_billing()
+                            else:
+                                impl.apply(na, aa)
+                        finally:
+                            impl.w.eng.cc = None
+                            impl.w._patch_time()
+                        stats["scenarios"] += 1
+                        if cc.outcome is None:
+                            break                       # A has fewer than k interior statement boundaries
+                        if isinstance(cc.outcome, tuple):
+                            raise RuntimeError(f"overlapping-transactions stage: the intruder {lb} failed inside {la} at boundary {k}: {cc.outcome[1]}")
+                        bp = stats["by_pair"].setdefault(f"{na}|{nb}", {"ran_inside": 0, "made_to_wait": 0})
+                        if cc.outcome == "blocked":
+                            stats["made_to_wait"] += 1
+                            bp["made_to_wait"] += 1
+                            continue
+                        stats["ran_inside"] += 1
+                        bp["ran_inside"] += 1
+                        got = impl.project()
+                        gv = {x: got[x] for x in COMPARE}
+                        diffs = [diff(spec_view(a), gv) for a in allowed]
+                        if all(diffs):
+                            d = min(diffs, key=len)
+                            touched = sorted({x.split(".")[0] for x in d})
+                            sig = f"interleave:{na}|{nb}:{','.join(t for t in touched if t in foot) or 'other:' + ','.join(touched)}"
+                            if not (foot & set(touched)):
+                                ctx.note(f"program {n}: {lb} inside {la} (boundary {k}, before {cc.log[-1]['statement']}) leaves tables no serial order "
+                                         f"produces, on variables {touched} that {pid} does not read")
+                            elif sig not in reported:
+                                reported.add(sig)
+                                ctx.violation(sig, {"program": n, "path": [lab for _s, lab, _d in wk[:pos]], "A": la, "B": lb, "boundary": k,
+                                                    "B_ran_before_statement": cc.log[-1]["statement"], "diff_to_nearest_serial_outcome": d})
+            finally:
+                for o in others:
+                    try:
+                        o.close()
+                    except Exception:  # noqa: BLE001
+                        pass
+                impl.close()
+        stats["programs"][n] = nsc
+    ctx.cov["overlapping_transactions"] = stats
+    return stats
 
 
 # ---- B2: random histories of the real code validated by TLC against BatchDBTrace --------------------------------------------
@@ -729,12 +1043,12 @@ def big_programs():
                                  5: job(upd=2, grp=3, cores=250)},
                         {1: dict(parent=0, upd=1), 2: dict(parent=1, upd=1), 3: dict(parent=0, upd=2)}, 2,
                         att_ids=("a1", "a2", "a3"), insts=("i1", "i2"), inst_cores=4000, times=(0, 1, 2, 3), days=(0, 1),
-                        features=("jpim", "billing", "cleaners", "delete", "deactivate"))
+                        features=("jpim", "billing", "cleaners", "delete", "deactivate", "failfast"), gfail={2: 1, 0: 3})
     P["wide6"] = Program("wide6", {1: job(grp=1), 2: job(grp=1, cores=250), 3: job(grp=2, par=[1]), 4: job(grp=2, par=[1, 2], always=True),
                                    5: job(grp=3, par=[3, 4]), 6: job(par=[5], always=True, cores=250)},
                          {1: dict(parent=0, upd=1), 2: dict(parent=1, upd=1), 3: dict(parent=1, upd=1), 4: dict(parent=2, upd=1)}, 1,
                          att_ids=("a1", "a2"), insts=("i1", "i2", "i3"), inst_cores=2000, times=(0, 1, 2), days=(0, 1),
-                         features=("jpim", "billing", "cleaners", "deactivate"))
+                         features=("jpim", "billing", "cleaners", "deactivate", "failfast"), gfail={1: 2, 3: 1})
     for p in P.values():
         p.check()
     return P
@@ -813,9 +1127,14 @@ def random_history(p: Program, rng: random.Random, length: int, seed: int):
                     for (j, a) in (sel[loop] if isinstance(sel[loop], set) else ()):
                         if (kind, j, a) not in pcall:
                             cands += [(act, [j, a])] * 3
+                for (g,) in (sel["failfast"] if isinstance(sel["failfast"], set) else ()):
+                    if "failfast" in p.features and ("ff", g, "NULL") not in pcall:
+                        cands += [("FailFastSelect", [g])] * 3
             for (kind, j, a) in sorted(pcall):
                 # calls already queued by a loop body; they may have gone stale meanwhile
-                if kind == "ready":
+                if kind == "ff":
+                    cands += [("FailFastCall", [j])] * 2
+                elif kind == "ready":
                     if not (st["js"][j] in ("Ready", "Creating", "Running") and has_uncommitted_child(j)):
                         cands += [("CancelReadyCall", [j])] * 2
                 elif kind == "creating":
@@ -865,6 +1184,10 @@ def random_history(p: Program, rng: random.Random, length: int, seed: int):
                 pcall.add(("creating", args[0], args[1]))
             elif name in ("CancelRunningSelect", "OrphanSelect"):
                 pcall.add(("unsched", args[0], args[1]))
+            elif name == "FailFastSelect":
+                pcall.add(("ff", args[0], "NULL"))
+            elif name == "FailFastCall":
+                pcall.discard(("ff", args[0], "NULL"))
             elif name == "CancelReadyCall":
                 pcall.discard(("ready", args[0], "NULL"))
             elif name == "CancelCreatingCall":
